@@ -678,15 +678,53 @@ class Model(object):
                 base[p] = list(vals.values())[0]
             else:
                 conflicts.append((p, list(vals.values())))
+        # a leaf and a deeper leaf of the same variable (a scalar or null
+        # published over a dict, or a dict over a scalar): the one whose
+        # publisher causally precedes the other's is stale.  An empty dict
+        # has no leaves of its own and never supersedes deeper leaves (the
+        # merge is per leaf).
+        def is_anc(a, b):
+            return b in s.insts and a in s.insts[b]['anc']
+        for p in sorted(base):
+            if p not in base:
+                continue
+            deeper = [q for q in base if len(q) > len(p) and q[:len(p)] == p]
+            if not deeper:
+                continue
+            v, pub = base[p]
+            if isinstance(v, dict) and not v:
+                del base[p]
+                continue
+            for q in deeper:
+                if p not in base:
+                    break
+                if q not in base:
+                    continue
+                qpub = base[q][1]
+                if qpub == pub or is_anc(qpub, pub):
+                    del base[q]          # the deeper leaf is the stale one
+                elif is_anc(pub, qpub):
+                    del base[p]          # the shallow leaf is the stale one
+                else:
+                    conflicts.append((p, [base[p], None]))
+                    break
         if not conflicts:
             return [(base, False)]
         res = [base]
         for p, options in conflicts:
             nxt = []
             for r in res:
-                for (v, a) in options:
+                for opt in options:
                     r2 = dict(r)
-                    r2[p] = (v, a)
+                    if opt is None:
+                        # concurrent shallow / deep publishers: the deeper
+                        # leaves win in this branch of the outcome set
+                        r2.pop(p, None)
+                    else:
+                        for q in [q for q in r2 if len(q) > len(p)
+                                  and q[:len(p)] == p]:
+                            del r2[q]
+                        r2[p] = opt
                     nxt.append(r2)
             res = nxt
         return [(r, True) for r in _uniq(res)]
